@@ -17,7 +17,9 @@ CLAIMS = {
    text="Coq theorems over ASModel, for every schedule and any number of threads: the storage of a container changes only through "
         "successful swap/compare_exchange events, and over a whole run these writes form one chain in which every write replaces exactly "
         "what its predecessor wrote (store_chain, by induction over schedules); the swap frame hands back exactly the replaced value. " + TIE,
-   note=NOTE + "'Handed back exactly once, owning a full reference': the removed value is carried with exactly one reference in the accounting table until it reaches the caller's "
+   note=NOTE + "Run level (ASModel/LinSwap*.v, all schedules within Main.RunOK): C04_swap_linearizable / C04_store_linearizable - a completed swap/store did exactly one write to the "
+        "container, it stored the given value, and the call hands back (store: releases in its last step) exactly the value that write replaced; compare_and_swap/rcu: C05/C06. "
+        "'Handed back exactly once, owning a full reference': the removed value is carried with exactly one reference in the accounting table until it reaches the caller's "
         "handle (C04_accounting = the count equation in every state of every run within Main.RunOK; C04_returned_value_alive); the hb theorems C04_handover_* pin the orderings of the "
         "exchanges (a weakened swap/compare-exchange breaks them).",
    technique="Rocq/Coq proof (induction over schedules) + trace correspondence"),
